@@ -54,9 +54,14 @@ def build(e, idx):
         total = s['w'] * len(s['vals'])
         fwdval = ORG + total
         parts = []
+        chars = all(33 <= to_int(x) < 127 and to_int(x) not in (34, 39, 92) for x in s['vals']) or \
+            (len(s['vals']) == 3 and to_int(s['vals'][1]) == 10 and to_int(s['vals'][0]) == 97)
         for j, x in enumerate(s['vals']):
             v = to_int(x)
             style = (idx + j) % 4
+            if chars and 33 <= v < 127:
+                parts.append("'" + chr(v) + "'")        # a value that is a character code, written as a quoted character
+                continue
             if style == 3 and abs(v) < 2 ** 31:
                 d = v - fwdval
                 parts.append(f'fwd + {d}' if d >= 0 else f'fwd - {-d}')
